@@ -174,6 +174,6 @@ pub mod capi {
 //@canary sealed-size-unsealed :: biscuit-capi::lib::biscuit_serialize_sealed :: let size = match b.serialized_size() { ==>> let size = match biscuit.0.serialized_size() {
 //@canary sealed-size-query :: biscuit-capi::lib::biscuit_sealed_size :: match biscuit.0.seal().and_then(|b| b.serialized_size()) { ==>> match biscuit.0.seal().and_then(|b| biscuit.0.serialized_size()) {
 //@canary serialize-null-check :: biscuit-capi::lib::biscuit_serialize :: let biscuit = biscuit.unwrap(); ==>> let biscuit = biscuit.unwrap(); if false { return 0; }
-//@canary keypair-serialize-size :: biscuit-capi::lib::key_pair_serialize :: verif_raw_parts_mut(buffer_ptr, 32) ==>> verif_raw_parts_mut(buffer_ptr, 31)
+//@canary keypair-serialize-size :: biscuit-capi::lib::key_pair_serialize :: std::slice::from_raw_parts_mut(buffer_ptr, 32) ==>> std::slice::from_raw_parts_mut(buffer_ptr, 31)
 } // verus!
 fn main() {}
